@@ -11,8 +11,6 @@ Open Scope list_scope.
 (* ====================================================================================== *)
 (* reload                                                                                  *)
 (* ====================================================================================== *)
-Definition is_log_gaussian (f : family) : bool := match f with FLogGaussian => true | _ => false end.
-
 (* the fragment of compositions whose files can be read back unchanged *)
 Fixpoint reloadable (n : node) : bool :=
   let all := (fix go (l : list (string * node)) : bool :=
